@@ -195,7 +195,7 @@ def check_interpolation(res, c, points, f, where, tol_rel=1e-11, comps=None):
     if comps is not None:
         vals, exp = vals[:, comps], exp[:, comps]
     nsch = sum(abs(g.coefficient) for g in c.scheme)
-    scale = max(1.0, float(np.max(np.abs(exp)))) * nsch
+    scale = max(getattr(f, "magnitude", 1.0), float(np.max(np.abs(exp)))) * nsch
     res.close("nodal_reproduction", vals, exp, tol_rel * scale, "dimwise_interpolant_not_nodal",
               "%s: combined interpolant differs from the function at points of the combined grid" % where,
               {"n_points": len(pts)})
